@@ -84,6 +84,9 @@ func ParseConfigFile(filepath string) (Config, base.LogSchema, ConfigStats, erro
 	}
 
 	var orcKeys []string
+	if conf.Orchestration.Value == nil {
+		return conf, schema, stats, fmt.Errorf("orchestration: unspecified")
+	}
 	keys, err := conf.Orchestration.Value.VerifyConfig(schema)
 	if err != nil {
 		return conf, schema, stats, fmt.Errorf("orchestration: %w", err)
